@@ -16,6 +16,7 @@ ID = 'C14'
 RULE = ('Generated: (history) a model containing every load kind (lumped, series RLC, trap, Laplace, skin effect, '
         'insulation) and a drawn sequence of 3..12 operations on ONE long-lived model object: set frequency (factor '
         '0.5..2 of the base frequency, also back to earlier values), compute, compute twice, far field, near field, '
+        'replace the sources (m.sources = [] + register_source on drawn pulses), '
         'report; after every compute / field / report operation currents, impedances, patterns, near fields (1e-12 '
         'relative) and the report text (byte-identical) are compared with a model built freshly from the same '
         'options at the current frequency.  (sweep) the command line with --frequency-steps: the frequency '
@@ -27,7 +28,7 @@ BUDGET = {'quick': {'examples': 500, 'wall': 220}, 'thorough': {'examples': 1200
 ASSUMPTIONS = ['the load listing is not compared between sweep and single run: in sweep mode it is printed once by design',
                'process determinism can only be detected probabilistically (miss probability (1/k!)^3 for k whole-object attachments)']
 LABEL_FLOORS = {'mode-history': 0.5, 'mode-sweep': 0.1, 'mode-process': 0.05, 'freq-dependent-distributed-load': 0.4,
-                'field-between-computes': 0.1, 'returns-to-earlier-frequency': 0.1}
+                'field-between-computes': 0.1, 'returns-to-earlier-frequency': 0.1, 'sources-replaced': 0.2}
 
 
 @st.composite
@@ -73,9 +74,15 @@ def case_strategy(draw, big=False):
     if mode == 'history':
         ops = []
         freqs = [1.0]
+        npl = len(gen.stand_in_topology(case)[0].pulses)
         for i in range(draw(st.integers(3, 12 if not big else 20))):
-            k = draw(st.sampled_from(['f', 'f', 'compute', 'compute', 'compute2', 'far', 'near', 'report']))
-            if k == 'f':
+            k = draw(st.sampled_from(['f', 'f', 'compute', 'compute', 'compute2', 'far', 'near', 'report', 'sources']))
+            if k == 'sources':
+                # the sources of the object are replaced (m.sources = [] and register_source); what was fed before
+                # must not matter
+                idx = draw(st.lists(st.integers(0, npl - 1), min_size=1, max_size=2, unique=True))
+                ops.append(['sources', [{'pulse': j, 'v': draw(gen.voltage())} for j in idx]])
+            elif k == 'f':
                 if len(freqs) > 1 and draw(st.booleans()):
                     fac = draw(st.sampled_from(freqs))
                 else:
@@ -129,9 +136,13 @@ def history(case, labels):
     seen_field_since_compute = False
     dist_dep = any(l['kind'] in ('skin_c', 'skin_r', 'ins') for l in case['loads'])
 
+    cur_src = [None]
+
     def fresh():
         c2 = copy.deepcopy(base)
         c2['f'] = cur_f
+        if cur_src[0] is not None:
+            c2['sources'] = copy.deepcopy(cur_src[0])
         m2 = build.model(c2)
         m2.compute()
         return m2
@@ -145,6 +156,14 @@ def history(case, labels):
                 labels.append('returns-to-earlier-frequency')
             nfreq.add(op[1])
             m.f = cur_f
+            computed = False
+            continue
+        if op[0] == 'sources':
+            labels.append('sources-replaced')
+            cur_src[0] = [dict(s_, _idx=s_['pulse']) for s_ in op[1]]
+            m.sources = []
+            for s_ in op[1]:
+                m.register_source(build.mm.Excitation(complex(*s_['v'])), s_['pulse'])
             computed = False
             continue
         if op[0] in ('compute', 'compute2'):
